@@ -68,6 +68,8 @@ class State:
         self.old_ids = set()        # ids of terms that denote objects of the initial heap (parameters)
         self.univ = []              # lazy universals: callables(index term) -> z3 Bool, instantiated at the index terms of this path
         self.idx = []               # index terms (skolems of goals, witnesses of assumed existentials)
+        self.kuniv = []             # lazy universals over dict keys: callables(Val term) -> z3 Bool
+        self.kidx = []              # key terms this path looked up / stored / tested in a dict
 
     def fork(self):
         n = State.__new__(State)
@@ -89,11 +91,13 @@ class State:
         n.old_ids = self.old_ids
         n.univ = list(self.univ)
         n.idx = list(self.idx)
+        n.kuniv = list(self.kuniv)
+        n.kidx = list(self.kidx)
         return n
 
     def hyps(self):
         """path condition plus the instances of this path's lazy universals at its index terms"""
-        key = (len(self.pc), len(self.univ), len(self.idx), self.pc[-1].get_id() if self.pc else 0)
+        key = (len(self.pc), len(self.univ), len(self.idx), self.pc[-1].get_id() if self.pc else 0, len(self.kuniv), len(self.kidx))
         cached = getattr(self, "_hyps_cache", None)
         if cached is not None and cached[0] == key:
             return list(cached[1])
@@ -101,8 +105,21 @@ class State:
         self._hyps_cache = (key, out)
         return list(out)
 
+    def key_term(self, k):
+        """a dict key this path uses: the key-indexed lazy universals are instantiated at it"""
+        if all(not k.eq(x) for x in self.kidx):
+            self.kidx.append(k)
+
     def _hyps(self):
         out = list(self.pc)
+        if self.kuniv and self.kidx:
+            seen_k = set()
+            for k in self.kidx[:40]:
+                if k.get_id() in seen_k:
+                    continue
+                seen_k.add(k.get_id())
+                for u in self.kuniv:
+                    out.append(u(k))
         if not self.univ or not self.idx:
             return out
         # index terms: the skolems / witnesses of this path, also shifted by the prefix lengths of the concatenations in the path
